@@ -35,15 +35,15 @@ _quiet_log()
 ID = "C31"
 LEVEL = "model_checking"
 TECHNIQUE = "explicit-state BFS over two real AMP peers with harness-controlled delivery, lock-step reference model"
-RULE = ("BFS over histories of {call(side, kind in ok/later/declared-error/undeclared-error), deliver(direction, "
-        "all | first box | half of first box), complete(side, pending responder k, answer | declared | undeclared), "
+RULE = ("BFS over histories of {call(side, kind in ok/later/declared-error/undeclared-error/subclass-of-declared-error), deliver(direction, "
+        "all | first box | half of first box), complete(side, pending responder k, answer | declared | undeclared | declared-subclass), "
         "lose(side), call-after-loss(side)} on two real AMP instances; after every transition every call's recorded "
         "results and every peer's responder invocations are compared with the reference model driven by an independent "
         "parse of the delivered bytes.  States are merged on (per side: lost, disconnecting, undelivered bytes, partial "
         "box received, call kinds+results, responder invocations+completion).  non-trivial = distinct states in which "
         "two calls were outstanding at once, an answer overtook another, a loss hit an outstanding call, or a box was "
         "partially delivered")
-BOUNDS = {"quick": "<= 3 calls in total (any split between the sides), depth 6 (sharded on the first 2 events)",
+BOUNDS = {"quick": "<= 3 calls in total (any split between the sides), depth 6 (sharded on the first 2 events); immediate declared error raised as a subclass, late one as the exact class",
           "thorough": "<= 3 calls per side, <= 4 in total, depth 7 (sharded on the first 2 events)"}
 ASSUMPTIONS = [
     "the peers talk over MemTransport: bytes written after loseConnection are dropped (a real TCP transport would still "
@@ -56,13 +56,17 @@ ASSUMPTIONS = [
 MIN = {"quick": {"states": 70000, "transitions": 130000, "nontrivial": 30000, "outcomes": 6},
        "thorough": {"states": 70000, "transitions": 130000, "nontrivial": 30000, "outcomes": 6}}
 
-KINDS = ["ok", "later", "decl", "undecl"]
+KINDS = ["ok", "later", "decl", "undecl", "declsub"]
 KCODE = {k: i for i, k in enumerate(KINDS)}
-HOWS = ["ok", "decl", "undecl"]
+HOWS = ["ok", "decl", "undecl", "declsub"]
 
 
 class DeclErr(Exception):
     pass
+
+
+class DeclSub(DeclErr):
+    """A subclass of the declared error: must reach the caller exactly like the declared error itself."""
 
 
 class Sum(amp.Command):
@@ -129,6 +133,8 @@ class Side:
             raise DeclErr("declared %d" % arg)
         if kind == "undecl":
             raise RuntimeError("undeclared %d" % arg)
+        if kind == "declsub":
+            raise DeclSub("declared subclass %d" % arg)
         d = defer.Deferred()
         self.pending.append({"cmd": cmd, "arg": arg, "d": d, "done": None})
         return d
@@ -161,6 +167,8 @@ class St:
         self.bad = []
         self.maxcalls = 2
         self.maxtotal = 4
+        self.hows = HOWS
+        self.kinds = KINDS
 
     def side(self, n):
         return self.A if n == "A" else self.B
@@ -228,7 +236,7 @@ def record(call):
 def make_call(side, kind, reentrant=False):
     n = len(side.calls) + 1
     arg = (side.base + n) * 10 + KCODE[kind]
-    cmd = "Sum" if kind in ("ok", "decl") else "Echo"
+    cmd = "Sum" if kind in ("ok", "decl") else "Echo"      # later / undecl / declsub use Echo
     if reentrant or side.lost:
         phase = "afterloss"
     else:
@@ -294,6 +302,8 @@ def apply(st, ev):
             p["d"].callback(answer_for(p["cmd"], p["arg"]))
         elif how == "decl":
             p["d"].errback(Failure(DeclErr("late declared")))
+        elif how == "declsub":
+            p["d"].errback(Failure(DeclSub("late declared subclass")))
         else:
             p["d"].errback(Failure(RuntimeError("late undeclared")))
     elif op == "lose":
@@ -340,7 +350,7 @@ def expected_before_loss(c):
     if c.phase == "delivered":
         if c.how == "ok":
             return [("ok", tuple(sorted(answer_for(c.cmd, c.arg).items())))]
-        if c.how == "decl":
+        if c.how in ("decl", "declsub"):
             return [("err", "DeclErr")]
         return [("err", "UnknownRemoteError")]
     return []
@@ -401,7 +411,7 @@ def enabled(st):
         peer = side.peer
         if not side.lost:
             if side.ncalls < st.maxcalls and total < st.maxtotal:
-                for k in KINDS:
+                for k in st.kinds:
                     evs.append(["call", side.name, k])
         elif not side.after_loss:
             evs.append(["call", side.name, "ok"])
@@ -414,7 +424,7 @@ def enabled(st):
                     evs.append(["deliver", side.name, which])
         npend = sum(1 for x in side.pending if x["done"] is None)
         for i in range(npend):
-            for how in (HOWS if not side.lost else HOWS[:1]):
+            for how in (st.hows if not side.lost else HOWS[:1]):
                 evs.append(["complete", side.name, i, how])
         if not side.lost:
             evs.append(["lose", side.name])
@@ -442,6 +452,10 @@ def initial_for(tier, prefix):
     def initial():
         st = St()
         st.maxcalls, st.maxtotal = mc_, mt
+        # quick: an immediate declared error is the subclass form, a late one the exact class (one of each);
+        # thorough: both forms both ways
+        st.hows = HOWS if tier == "thorough" else ["ok", "decl", "undecl"]
+        st.kinds = KINDS if tier == "thorough" else ["ok", "later", "declsub", "undecl"]
         for ev in prefix:
             apply(st, ev)
         return st
